@@ -122,6 +122,16 @@ class TUnion(Ty):
         return "(Sum {} {})".format(self.a.lean(), self.b.lean())
 
 
+class THet(Ty):
+    """a Python list used as a record: a homogeneous prefix followed by a fixed tail of other values
+    (`[(c, l), …, op, value]`): Lean `(List elem × t₁ × … × tₙ)`"""
+    def __init__(self, elem, tails):
+        self.elem, self.tails = elem, list(tails)
+
+    def lean(self):
+        return "(" + " × ".join([TList(self.elem).lean()] + [t.lean() for t in self.tails]) + ")"
+
+
 class TVar(Ty):
     """unification variable (element type of `[]` before the first append)"""
     count = 0
@@ -158,6 +168,8 @@ def resolve(t):
         return TTuple([resolve(e) for e in t.elems])
     if isinstance(t, TDict):
         return TDict(resolve(t.k), resolve(t.v))
+    if isinstance(t, THet):
+        return THet(resolve(t.elem), [resolve(x) for x in t.tails])
     return t
 
 
